@@ -97,6 +97,7 @@ type AScenario struct {
 	UnescIn       bool       `json:"unescape_in_extractions,omitempty"`           // the unescape step also sits among the input extractions, where records queue up after it
 	AcceptErrs    []int      `json:"accept_errors_before_connection,omitempty"`   // the accept(2) that would return the k-th connection first fails once with a transient error (EMFILE)
 	Fine          bool       `json:"fine_yields,omitempty"`                       // every larger function entry of the agent is a preemption point in this run
+	SpawnStall    int        `json:"spawn_stall,omitempty"`                       // percentage of the agent's go statements whose goroutine starts late (1 ms .. 1.5 s of simulated time, at most 6 per run)
 	Datadog       bool       `json:"datadog_output,omitempty"`                    // a Datadog output/buffer pair whose consumer never takes a chunk: every chunk it makes ends up in its queue root
 	Poison        bool       `json:"poison_released_buffers,omitempty"`           // released backing buffers are overwritten with 0xEE (in the other runs they keep their bytes until reused, which is what lets a stale reference read ANOTHER record)
 	Tag           string     `json:"tag"`                                         // tag template
@@ -511,6 +512,11 @@ func (w *worldA) Generate(r *simrt.Rand, profile, tier string) any {
 	case "c11big", "c11dd", "c07big":
 	case "c06", "c12", "c05":
 		s.Fine = r.Bool(25)
+		// slow tasks: nothing says when a goroutine started by a go statement first runs. Only where the oracle is free of
+		// time bounds (order of deliveries)
+		if profile == "c05" && r.Bool(35) {
+			s.SpawnStall = []int{5, 15, 40}[r.Intn(3)]
+		}
 	default:
 		s.Fine = r.Bool(8)
 		if os.Getenv("VERIF_FINE_ALL") != "" {
@@ -525,7 +531,10 @@ var c06Alphabet = []string{"", "a", "b", "ab", "bc", "c", ",", "a,b", "b,c", "/"
 // hostile material for C07, produced by grammar mutation of a valid record
 func hostileLine(r *simrt.Rand, n int) string {
 	valid := fmt.Sprintf("<13>1 2024-03-05T10:20:30Z host app 42 - - hostile payload number %d with padding", n)
-	switch r.Intn(28) {
+	switch r.Intn(30) {
+	case 27, 28: // the PRI read as a signed or oversize integer (strconv accepts a sign): reaches the parser when it opens a connection or follows a flush
+		pri := []string{"-1", "-3", "-7", "-8", "-9", "-0", "+5", "-191", "0013", "192", "99999999999999999999", "-99999999999999999999", "1e1", "0x1"}[r.Intn(14)]
+		return strings.Replace(valid, "<13>1", "<"+pri+">1", 1) + "\n"
 	case 24: // bracketed label for the extractHead step made of blanks / control bytes only, or empty
 		return strings.Replace(valid, "hostile payload", []string{"[   ] - ", "[\t] - ", "[] - ", "[ \x01 ] - ", "[" + strings.Repeat(" ", 98) + "] - "}[r.Intn(5)]+"payload", 1) + "\n"
 	case 25: // label for the extractTail step on the msgid: blank / control bytes only, empty, oversize
@@ -916,6 +925,11 @@ func (w *worldA) Shrink(sc any) []any {
 		c.Fine = false
 		out = append(out, c)
 	}
+	if s.SpawnStall != 0 {
+		c := clone()
+		c.SpawnStall = 0
+		out = append(out, c)
+	}
 	for i := range s.Events {
 		c := clone()
 		c.Events = append(c.Events[:i], c.Events[i+1:]...)
@@ -1078,6 +1092,7 @@ func (w *worldA) Run(t *testing.T, profile string, sc any, cfg simrt.Config) *Ou
 	r.cfgPath = filepath.Join(aTmpDir, "config.yml")
 	cfg.MaxSimTime = 100 * time.Hour
 	cfg.FineYields = s.Fine
+	cfg.SpawnStall = s.SpawnStall
 	if cfg.MaxSteps == 0 && s.Fine {
 		cfg.MaxSteps = 6_000_000
 	}
